@@ -2,7 +2,7 @@
 
 For every class of the library that defines its own `dump`, the body is read from the source AST as a script over
 
-    validate | openW | getParser | serialize | buildFile | newBuf | buildMem | writeBuf | unlink | unknown
+    validate | openW | getParser | serialize | buildFile | newBuf | buildMem | writeBuf | unlink | readBack | unknown
 
 in statement order (the statements inside `with open_file_obj(f, "w") as f:` follow the `openW`).  Only the exact
 idiom of the library is recognised:
@@ -18,7 +18,8 @@ idiom of the library is recognised:
 
 Anything else is `unknown` (treated as fallible by the model); an unrecognised statement that contains a call of
 something named `open*` is `openW, unknown` (it may truncate AND may fail afterwards); one that contains a call of
-os.unlink / os.remove / os.rename / os.replace / shutil.* is `unlink, unknown` (the destination may be gone).  The translation can therefore
+os.unlink / os.remove / os.rename / os.replace / shutil.* is `unlink, unknown` (the destination may be gone); one that
+calls .load / .loads / .deserialize / .parse_file is `readBack` (fallible: the reader validates a second time).  The translation can therefore
 only break the obligation `noFallibleAfterOpen`, never discharge it.
 
 Output: Generated/Effects.lean (`Gen.dumpScript_<Class>`, `Gen.dumpScripts`, `Gen.dumpOwner`) and the same in JSON.
@@ -75,6 +76,14 @@ def mentions_destructive(node):
     return False
 
 
+def mentions_readback(node):
+    """a call of .load / .loads / .deserialize / .parse_file anywhere in the statement: the written data is read back"""
+    for n in ast.walk(node):
+        if isinstance(n, ast.Call) and isinstance(n.func, ast.Attribute) and n.func.attr in ("load", "loads", "deserialize", "parse_file"):
+            return True
+    return False
+
+
 def tr_block(stmts, inside, out, state):
     for st in stmts:
         src = ast.unparse(st).split("\n")[0][:100]
@@ -120,7 +129,10 @@ def tr_block(stmts, inside, out, state):
             out.append(dict(eff="unlink", inside_with=inside, src=src, why="unrecognised statement that may remove/rename/replace the destination"))
         if mentions_open(st):
             out.append(dict(eff="openW", inside_with=inside, src=src, why="unrecognised statement that may open/alter a file"))
-        out.append(dict(eff="unknown", inside_with=inside, src=src, why="outside the dump idiom"))
+        if mentions_readback(st):
+            out.append(dict(eff="readBack", inside_with=inside, src=src, why="reads the written data back (second validation pass, by the reader)"))
+        else:
+            out.append(dict(eff="unknown", inside_with=inside, src=src, why="outside the dump idiom"))
 
 
 def script_of(fn):
